@@ -97,19 +97,29 @@ def unit_models(I, env):
     def m_from_signed(I_, s, fr, c, a, d, de, rb):
         sg = mat(I_, s, a[0]); return mk_ok(Adt('SignedRole', None, {(None, F('SignedRole', 'signed')): sg, (None, 'from_signed'): True}))
     return [(RXc(r'^keys::<impl KeyHolder>::get_keys$'), m_get_keys), (RXc(r'^keys::<impl KeyHolder>::role_keys$'), m_role_keys), (RXc(r' as Role>::role_id$'), m_role_id),
-            (RXc(r'^HashMap::<Decoded<Hex>, Box<dyn sign::Sign>>::iter$'), m_hm_iter), (RXc(r'as Iterator>::filter::<'), m_filter), (RXc(r'^<std::iter::Filter<.*> as IntoIterator>::into_iter$'), m_identity),
+            (RXc(r'^HashMap::<Decoded<Hex>, Box<dyn sign::Sign>>::iter$'), m_hm_iter), (RXc(r'^core::slice::<impl \[\(Decoded<Hex>, Box<dyn sign::Sign>\)\]>::iter$'), m_hm_iter), (RXc(r'^<Vec<\(Decoded<Hex>, Box<dyn sign::Sign>\)> as Deref>::deref$'), m_identity), (RXc(r'as Iterator>::filter::<'), m_filter), (RXc(r'^<std::iter::Filter<.*> as IntoIterator>::into_iter$'), m_identity),
             (RXc(r'^<std::iter::Filter<.*> as Iterator>::next$'), m_filter_next), (RXc(r'^core::slice::<impl \[Decoded<Hex>\]>::contains$'), m_contains),
             (RXc(r'^CanonicalFormatter::new$'), m_canon_new), (RXc(r'^serde_json::Serializer::<.*>::with_formatter$'), m_with_formatter), (RXc(r' as Serialize>::serialize::<'), m_serialize),
             (RXc(r'^<dyn sign::Sign as sign::Sign>::sign::<'), m_sign), (RXc(r'^NonZero::<u64>::get$'), m_nz_get), (RXc(r'^<RoleType as PartialEq>::ne$'), m_rt_ne),
             (RXc(r'^<RoleType as ToString>::to_string$'), m_rt_to_string), (RXc(r'^Vec::<u8>::new$'), m_vec_u8_new), (RXc(r'^SignedRole::<.*>::from_signed$'), m_from_signed),
             (RXc(r'^<Vec<u8> as Into<Decoded<Hex>>>::into$'), lambda I_, s, fr, c, a, d, de, rb: Obj('decoded', of=mat(I_, s, a[0])))] + stdm.STD_MODELS
 
+def key_list_is_map(I):
+    """KeyList (what KeyHolder::get_keys returns) is a map keyed by key id in the current source: a map holds one entry per id; any other container may hold
+    the same key several times, and then it is the business of SignedRole::new to count distinct keys"""
+    for n, fs in I.funcs.items():
+        if n.endswith('get_keys::{closure#0}') and 'editor/keys.rs' in n: return 'HashMap<' in (fs[0].ret or '') or 'BTreeMap<' in (fs[0].ret or '')
+    for n, fs in I.funcs.items():
+        if n.endswith('>::get_keys') and 'editor/keys.rs' in n: return 'HashMap<' in fs[0].text[:3000] or 'BTreeMap<' in fs[0].text[:3000]
+    return True
+
 def signed_role_new(R, I, tier):
     fn = signed_role_fn(I, 'new')
+    is_map = key_list_is_map(I)
     types = ['Snapshot', 'DelegatedTargets', 'Root'] if tier == 'quick' else ['Snapshot', 'schema::Timestamp', 'Targets', 'DelegatedTargets', 'Root']
     maxn = 2 if tier == 'quick' else 3
     R.bounds.update({'SignedRole::new': f'role types {types}; 0..{maxn} usable signing keys (distinct ids), 1..{maxn} key ids listed for the role (any, may repeat), any threshold'})
-    R.assumptions += ['KeyHolder::get_keys yields the provided keys that appear in the key table, under their table ids (distinct); KeyHolder::role_keys yields the key ids and threshold of the role or fails',
+    R.assumptions += ['KeyHolder::get_keys yields the provided keys that appear in the key table, under their table ids (distinct ids if and only if KeyList is a map type in the current source); KeyHolder::role_keys yields the key ids and threshold of the role or fails',
                       'Sign::sign may fail; a signature is a function of (key, message); the canonical serialisation is a function of the role content (C11)']
     for T in types:
         for n in range(0, maxn + 1):
@@ -117,7 +127,7 @@ def signed_role_new(R, I, tier):
                 label = f'SignedRole::<{T}>::new[{n} keys, {m} listed]'
                 env = {'provided': [z3.BitVec(f'pk{i}', 8) for i in range(n)], 'role_ids': [z3.BitVec(f'rk{j}', 8) for j in range(m)], 'thr': z3.BitVec('thr', 64)}
                 st = State(); st.env['fs'] = {}
-                if n > 1: st.pc.append(z3.Distinct(env['provided']))
+                if n > 1 and is_map: st.pc.append(z3.Distinct(env['provided']))      # a map holds one entry per key id
                 st.pc.append(env['thr'] != 0)
                 uid = 4242
                 role = Adt(T.split('::')[-1], None, {(None, 'uid'): uid})
@@ -129,6 +139,8 @@ def signed_role_new(R, I, tier):
                     I.models[:] = saved
                 R.check_interp_clean(I, label)
                 nvalid = z3.Sum([z3.If(z3.Or([k == r for r in env['role_ids']]), 1, 0) for k in env['provided']] + [z3.IntVal(0)])
+                # distinct provided keys listed for the role (= nvalid when the ids are distinct)
+                ndistinct = z3.Sum([z3.If(z3.And(z3.Or([k == r for r in env['role_ids']]), z3.And([k != k2 for k2 in env['provided'][:i]] + [z3.BoolVal(True)])), 1, 0) for i, k in enumerate(env['provided'])] + [z3.IntVal(0)])
                 is_root = (T == 'Root')
                 def dec(m_, env=env, label=label):
                     ev = lambda t: m_.eval(t, model_completion=True).as_long()
@@ -144,7 +156,7 @@ def signed_role_new(R, I, tier):
                         R.obligation(f'{label}: success => the role is wrapped unchanged and handed to from_signed', s.pc, z3.BoolVal(fld(sg, 'Signed', 'signed').fields.get((None, 'uid')) == uid and val.fields.get((None, 'from_signed')) is True), decode=dec, group='new/wraps-role')
                         R.obligation(f'{label}: success => number of signatures = number of provided keys listed for the role', s.pc, z3.IntVal(len(elems)) == nvalid, decode=dec, group='new/signature-count')
                         if not is_root:
-                            R.obligation(f'{label}: success => the signatures meet the role threshold', s.pc, z3.BV2Int(env['thr']) <= nvalid, decode=dec, group='new/threshold')
+                            R.obligation(f'{label}: success => the signatures meet the role threshold with distinct keys', s.pc, z3.BV2Int(env['thr']) <= ndistinct, decode=dec, group='new/threshold')
                         for e in elems:
                             kid = dr(I, s, fld(e, 'Signature', 'keyid')); sig = dr(I, s, fld(e, 'Signature', 'sig'))
                             body = sig.d.get('of') if sig.kind == 'decoded' else sig
